@@ -561,7 +561,7 @@ theorem ackNow_inv0 {s : St} (h : Inv0 s) (id : Nat) (w : Bool)
 
 
 theorem canWrite_spec {s : St} (h : canWrite s = true) : s.dbo = s.len := by
-  simp [canWrite] at h; exact h.2
+  simp [canWrite] at h; exact h.1.1.2
 
 theorem doWrite_inv {s : St} (h : Inv s) (id ln extra : Nat) : Inv (doWrite s id ln extra).1 := by
   unfold doWrite
@@ -599,7 +599,7 @@ theorem doWrite_inv {s : St} (h : Inv s) (id ln extra : Nat) : Inv (doWrite s id
 theorem doRead_inv {s : St} (h : Inv s) (id : Nat) : Inv (doRead s id).1 := by
   unfold doRead
   split
-  · exact ⟨park_inv0 h.1 id 0 true (by intro h; cases h), h.2⟩
+  · exact ⟨park_inv0 h.1 id _ true (by intro h; cases h), h.2⟩
   · exact ⟨ackNow_inv0 h.1 id false (by intro h; cases h), h.2⟩
 
 theorem doOp_inv {s : St} (h : Inv s) (id ln extra : Nat) (k : Kind) : Inv (doOp s id ln extra k).1 := by
